@@ -51,7 +51,7 @@ func (es *EvidenceStore) CleanTracker() {
 	if err != nil {
 		return
 	}
-	requestIdList := make([]string, len(at.Requests))
+	requestIdList := make([]string, 0, len(at.Requests))
 	for k := range at.Requests {
 		requestIdList = append(requestIdList, k)
 	}
